@@ -46,8 +46,20 @@ pub fn check(property: &str) -> Option<CheckDef> {
                 "liveness is bounded progress: every Ok round applies a new URI; fixpoint within (#distinct URIs + #definitions + 2) rounds after the last fault",
             ],
         }),
+        "C12" => Some(CheckDef {
+            property: "C12",
+            level: "exploration",
+            parts: vec![
+                part(Box::new(Erased(engines::drawhist::DrawHistory { stale: false })), 150_000, 4_000_000, "C02", 60),
+                part(Box::new(Erased(engines::drawhist::ConcurrentDraws)), 15_000, 500_000, "C02", 60),
+            ],
+            assumptions: vec![
+                "the reference for every draw is a freshly constructed instance of the same configuration with library memory and no location on the same thread",
+                "state leaks are made visible by synthetic fonts whose glyph programs read storage, CVT, function/instruction definitions and twilight points they never wrote",
+            ],
+        }),
         _ => None,
     }
 }
 
-pub const ALL: &[&str] = &["C07", "C18", "C19"];
+pub const ALL: &[&str] = &["C07", "C12", "C18", "C19"];
